@@ -6,6 +6,8 @@ import Winter.Model.Protocol
 import Winter.Model.RefProver
 import Winter.Gen.ProofOpts
 import Winter.Gen.FriOpts
+import Winter.Gen.Degree
+import Winter.Gen.AirContext
 
 namespace Drv.C01
 open Model.Protocol
@@ -23,10 +25,25 @@ def degrees? (s : String) : Option (List Degree) :=
 def glueLine (g : Glue) : String :=
   s!"{g.ceBlowup} {g.ceDomain} {g.ldeDomain} {g.columns} {g.tracePolyDegree} {g.layers} {g.remDomain} {g.remCoef} {boolStr g.wellFormed} {boolStr g.queriesOk}"
 
-/-- translation validation of tie T: the definitions regenerated from the Rust sources on this run are
-    evaluated on the same operands as the model; a difference is appended to the model's answer and so shows
-    up as a disagreement with the compiled code -/
-def genDiff (n : Nat) (o : Options) (x : Nat) (r : Res Glue) : String :=
+-- ---- tie T (owner T; keep when editing this file): translation validation of the definitions regenerated
+-- from the Rust sources on this run (Winter/Gen/ProofOpts, FriOpts, Degree, AirContext): they are evaluated
+-- on the same operands as the model; a difference is appended to the model's answer and so shows up as a
+-- disagreement with the compiled code
+def genCtx (n e : Nat) (o : Options) (md ad : List Degree) (gl : Glue) : String :=
+  let ev := fun (d : Degree) (m : Nat) => Gen.Degree.get_evaluation_degree d.base d.cycles m
+  let evOk := fun (d : Degree) (m : Nat) => Gen.Degree.get_evaluation_degree_ok d.base d.cycles m
+  let col := if Gen.AirContext.num_constraint_composition_columns_ok ev evOk ad md e n
+    then toString (Gen.AirContext.num_constraint_composition_columns ev evOk ad md e n) else "panic"
+  let minb := ((md ++ ad).map fun d =>
+    if Gen.Degree.min_blowup_factor_ok d.base d.cycles then Gen.Degree.min_blowup_factor d.base d.cycles else 0).foldl max 0
+  let chk (name : String) (a b : String) : String := if a == b then "" else s!" gen:{name}={a}"
+  chk "columns" col (toString gl.columns)
+    ++ chk "ce_blowup" (toString minb) (toString gl.ceBlowup)
+    ++ chk "ce_domain" (if Gen.AirContext.ce_domain_size_ok gl.ceBlowup n then toString (Gen.AirContext.ce_domain_size gl.ceBlowup n) else "panic") (toString gl.ceDomain)
+    ++ chk "lde_domain" (if Gen.AirContext.lde_domain_size_ok o.blowup n then toString (Gen.AirContext.lde_domain_size o.blowup n) else "panic") (toString gl.ldeDomain)
+    ++ chk "trace_poly_degree" (if Gen.AirContext.trace_poly_degree_ok n then toString (Gen.AirContext.trace_poly_degree n) else "panic") (toString gl.tracePolyDegree)
+
+def genDiff (n e : Nat) (o : Options) (x : Nat) (md ad : List Degree) (r : Res Glue) : String :=
   let accG := Gen.ProofOpts.new_ok o.queries o.blowup o.grinding x o.folding o.remainder
   let d1 := if accG == o.accepted then "" else s!" gen:new_ok={boolStr accG}"
   match r with
@@ -37,7 +54,7 @@ def genDiff (n : Nat) (o : Options) (x : Nat) (r : Res Glue) : String :=
     let layG := if Gen.ProofOpts.to_fri_options_ok o.blowup o.folding o.remainder
         && Gen.FriOpts.num_fri_layers_ok 64 fo.2.2 fo.1 fo.2.1 lde
       then toString (Gen.FriOpts.num_fri_layers 64 fo.2.2 fo.1 fo.2.1 lde) else "panic"
-    d1 ++ (if layG == toString gl.layers then "" else s!" gen:layers={layG}")
+    d1 ++ (if layG == toString gl.layers then "" else s!" gen:layers={layG}") ++ genCtx n e o md ad gl
 
 /-- `q.b.g.x.f.r` -/
 def optsOf (s : String) : Option Model.Serde.ProofOptions :=
@@ -80,7 +97,7 @@ def handle (toks : List String) : String :=
         let res := glue n o e mw aw nr md ad
         (match res with
         | .ok gl => glueLine gl
-        | .panic => "panic") ++ genDiff n o x res
+        | .panic => "panic") ++ genDiff n e o x md ad res   -- tie T: keep
     | _, _, _ => "bad-op"
   | _ => "bad-op"
 
